@@ -21,7 +21,7 @@ CONSTANTS Emit
 
 Publics == {"none", "true", "false"}
 Kinds == {"module", "class", "function", "attribute", "alias"}
-NameClasses == {"plain", "_x", "__x", "__x__"}
+NameClasses == {"plain", "_x", "__x", "__x__", "_x__"}      \* _x__: one leading underscore, dunder tail - private, not special
 ParentKinds == {"none", "module", "class"}
 \* parent.exports: None / [] / a list containing the name / a non-empty list without it
 Exports == {"none", "empty", "lists", "omits"}
@@ -66,7 +66,7 @@ Impl == [public |-> S(ImplPublic), private |-> S(ImplPrivate), special |-> S(Imp
 \* ---- the documented table -------------------------------------------------------------------------
 DefinesAll == ParentIsModule /\ exports # "none"        \* "the parent (module) defines __all__"
 DocSpecial == nameclass = "__x__"                       \* "special name like __special__"
-DocPrivate == nameclass \in {"_x", "__x"}                \* "_private or __private, but not __special__"
+DocPrivate == nameclass \in {"_x", "__x", "_x__"}                \* "_private or __private, but not __special__"
 DocClassPrivate == parent = "class" /\ nameclass = "__x" \* "class-private name like __private and is a member of a class"
 DocImported == parent # "none" /\ imported               \* "was imported from another module" (name in parent's imports)
 DocExported == ParentIsModule /\ Listed                  \* "exported (listed in __all__)"
